@@ -222,6 +222,22 @@ def r4_dispatch(cx, mods):
     ok = len(hr) == 1 and set(guard_texts(hr[0])) == set([("plugins.is_rule(comp)", True), ("comp in broker", True)]) and [U(a) for a in hr[0].args] == ["comp", "broker[comp]"] \
         and enclosing(hr[0], (ast.For, ast.While)) is None
     cx.require(ok, hr[0] if hr else ob, "the observer hands a rule's value to handle_result exactly once, iff the component is a rule with a value", construct=short(hr[0]) if hr else "(none)")
+    # every override of the observer hands over to the base observer (which files the result) before it does anything that can fail:
+    # an exception in the override's own bookkeeping is swallowed by fire_observers, and with it the rule's outcome would be lost
+    n_over = 0
+    for q, c in ev.classes():
+        if c.name == "Evaluator":
+            continue
+        for st in c.body:
+            if isinstance(st, FUNC_TYPES) and st.name == "observer":
+                n_over += 1
+                body = [b for b in st.body if not (isinstance(b, ast.Expr) and isinstance(b.value, ast.Constant))]
+                sup = [x for x in find_calls(st.body, attr="observer") if U(x.func.value).startswith("super(")]
+                ok = len(sup) == 1 and bool(body) and isinstance(body[0], ast.Expr) and body[0].value is sup[0] and [U(a) for a in sup[0].args] == params(st)[1:3]
+                cx.require(ok, sup[0] if sup else st, "%s.observer calls the base observer first, unconditionally, with the same arguments" % c.name,
+                           construct=short(body[0], 90) if body else "def observer")
+    if not n_over:
+        cx.error("expected at least one observer override among the evaluators", "C12.R4")
     pp = ev.func("Evaluator.preprocess", "C12.R4")
     ao = [x for x in find_calls(pp.body, attr="add_observer")]
     cx.require(len(ao) == 1 and U(ao[0].args[0]) == "self.observer", ao[0] if ao else pp, "the evaluator registers its observer once", construct=short(ao[0]) if ao else "(none)")
